@@ -54,6 +54,7 @@ func (s *State) setArr(sl SliceV, v StructV) {
 	o := s.heap[sl.arr]
 	o.v = setPath(o.v, decPath(sl.apath), v)
 }
+
 type IfaceV struct {
 	t types.Type
 	v Value
@@ -182,6 +183,7 @@ type G struct {
 	retval  Value
 	name    string
 	name2   string
+	yielded bool // the goroutine gave way at the lock acquisition it is about to re-execute (preempt: locks)
 }
 
 func (g *G) clone() *G {
@@ -216,7 +218,7 @@ type State struct {
 	events   []string
 	shared   int
 	model    map[string]uint64 // an assignment of the nd variables satisfying pc (nil if unknown)
-	regions  map[string]*Term // known-finding regions registered on this path (copy on write)
+	regions  map[string]*Term  // known-finding regions registered on this path (copy on write)
 	obs      []*Term
 	asserts  []assertRec
 	reached  []string
@@ -296,7 +298,7 @@ func setPath(v Value, path []int, nv Value) Value {
 	return c
 }
 
-func (s *State) load(p Ptr) Value      { return getPath(s.heap[p.obj].v, p.path) }
+func (s *State) load(p Ptr) Value     { return getPath(s.heap[p.obj].v, p.path) }
 func (s *State) store(p Ptr, v Value) { o := s.heap[p.obj]; o.v = setPath(o.v, p.path, v) }
 
 func ptrEq(a, b Ptr) bool {
